@@ -485,7 +485,27 @@ _VARIANT_TESTS = {"std::option::Option::is_some": ("Some", "None"), "std::option
                   "std::result::Result::is_ok": ("Ok", "Err"), "std::result::Result::is_err": ("Err", "Ok")}
 
 
-def path_conditions(body, bb, max_paths=64, max_len=400):
+def local_path_conditions(body, bb, max_paths=8):
+    """like path_conditions, but the paths start at the highest dominator of bb from which at most `max_paths` acyclic
+    paths lead to bb; what holds at that dominator (by dominance) is prefixed to each path.  The branching far above a
+    merge point (and in the callers of a helper) does not multiply the cases that way."""
+    if bb not in body.reachable:
+        return []
+    doms = sorted((d for d in body.dom.get(bb, ()) if d != bb), key=lambda d: -len(body.dom.get(d, ())))
+    best = None
+    for d in doms:
+        p = path_conditions(body, bb, max_paths=max_paths, start=d)
+        if p is None:
+            break
+        best = (d, p)
+    if best is None:
+        return None
+    d, paths = best
+    pre = list(dominating_conditions(body, d))
+    return [pre + p for p in paths]
+
+
+def path_conditions(body, bb, max_paths=64, max_len=400, start=0):
     """the conditions taken along each acyclic path entry->bb: [[(Cond, truth)], ..] (None if there are too many paths);
     used where a fact holds on every path without being forced by a single dominating branch
     (`(Some(a), _) => ..` reached from `tlv == None` and from the failed guard `a != b`)"""
@@ -531,7 +551,7 @@ def path_conditions(body, bb, max_paths=64, max_len=400):
                     add = [(c, ("not", tuple(v for v, tg in t["arms"])) if y == t["otherwise"] and not vals else ("in", tuple(vals)))]
             go(y, seen | {y}, conds + add)
     try:
-        go(0, {0}, [])
+        go(start, {start}, [])
     except (OverflowError, RecursionError):
         return None
     return out
